@@ -432,6 +432,13 @@ impl Problem for TagP {
     }
 }
 
+/// So that evaluation steps can be run on tagged populations: f(tag) = tag / 2.
+impl ObjectiveFunction for TagP {
+    fn objective(&self, solution: &u32) -> SingleObjective {
+        so(*solution as f64 * 0.5)
+    }
+}
+
 pub fn tagged(tag: u32, objective: Option<f64>) -> mahf::Individual<TagP> {
     match objective {
         Some(v) => mahf::Individual::new(tag, so(v)),
